@@ -73,6 +73,7 @@ def coerce(v, ty: Ty, st=None):
         return V(ty, ty.sort().some(coerce(v, ty.inner).z))
     if ty == T.Text and is_str(v.ty) and v.ty.view == "array":
         USED["tx_of"] = True
+        USED.setdefault("tx_of_terms", {})[v.z.get_id()] = v.z
         return V(ty, tx_of()(v.z))
     if ty == INT and v.ty == BOOL:
         return V(INT, z3.If(v.z, 1, 0))
@@ -94,11 +95,16 @@ def tx_of():
     return T._dt("Text.of", lambda: z3.Function("tx_of", T.StrA.sort(), T.Text.sort()))
 
 
-def global_axioms():
+def global_axioms(bounded=False):
     out = []
     if USED.get("tx_of"):
-        x = z3.Const("txof_x", T.StrA.sort())
-        out.append(z3.ForAll([x], T.text_len()(tx_of()(x)) == T.StrA.sort().len(x), patterns=[tx_of()(x)]))
+        if bounded:
+            # refutation mode must stay quantifier-free: ground instances for the terms actually converted
+            for t in USED.get("tx_of_terms", {}).values():
+                out.append(T.text_len()(tx_of()(t)) == T.StrA.sort().len(t))
+        else:
+            x = z3.Const("txof_x", T.StrA.sort())
+            out.append(z3.ForAll([x], T.text_len()(tx_of()(x)) == T.StrA.sort().len(x), patterns=[tx_of()(x)]))
     return out
 
 
